@@ -572,6 +572,18 @@ func main() {
 			}
 		})
 	}
+	// C'. n = 4 (thorough only)
+	if r.Thorough() {
+		for _, kl := range [][]*key{{k[0], k[1], k[2], k[3]}, {k[3], k[0], sm, k[0]}} {
+			alpha := []sym{V(kl[0]), V(kl[1]), V(kl[2]), V2(kl[2]), V(kl[3]), V2(kl[3]), V(ed), g64}
+			kl := kl
+			seqs(alpha, 4, func(sg []sym) {
+				for m := uint16(0); m <= 5; m++ {
+					add("multi-n4", entry{kl, m, sg})
+				}
+			})
+		}
+	}
 	// D. key limit: n ∈ {15,16,17}
 	for _, n := range []int{15, 16, 17} {
 		kl := big17[:n]
@@ -823,7 +835,7 @@ func main() {
 		"SM2 / Ed25519 private keys are generated per run (ontology-crypto GenerateKeyPair); the verdicts do not depend on them",
 		"an entry with zero keys cannot be encoded and is tested on an in-memory transaction only")
 	r.Finish(map[string]any{
-		"rule": fmt.Sprintf("single entries: 3 key types × all signature sequences len≤2 over 11-12 symbols × m∈0..2; n=2: 6 key lists × sequences len≤%d over 8 symbols × m∈0..3; n=3: 5 key lists × len≤%d over 8 symbols × m∈0..4; n∈{15,16,17} × m∈{0,1,2,n-1,n,n+1} × 8 signature patterns; entry counts 0, all pairs%s of 12 entries, 15/16/17 entries (honest, one bad at each position, repeated, multi); addresses: all ≥2-subsets (≤4) of 6 keys × all m × all permutations + 16-key lists",
+		"rule": fmt.Sprintf("single entries: 3 key types × all signature sequences len≤2 over 11-12 symbols × m∈0..2; n=2: 6 key lists × sequences len≤%d over 8 symbols × m∈0..3; n=3: 5 key lists × len≤%d over 8 symbols × m∈0..4; (thorough: n=4: 2 key lists × len≤4 over 8 symbols × m∈0..5); n∈{15,16,17} × m∈{0,1,2,n-1,n,n+1} × 8 signature patterns; entry counts 0, all pairs%s of 12 entries, 15/16/17 entries (honest, one bad at each position, repeated, multi); addresses: all ≥2-subsets (≤4) of 6 keys × all m × all permutations + 16-key lists",
 			maxLen2, maxLen3, map[bool]string{true: " and triples", false: ""}[r.Thorough()]),
 		"cases": len(cases),
 	})
